@@ -188,3 +188,7 @@ REQUIRED_THEOREMS["C03"] = ["C03_acyclic", "C03_forest_reading", "C03_step_delet
                             "C03_refuse_triple", "C03_refuse_triple_forced", "C03_force_minimal",
                             "C03_hyp_needed_addNode_book", "C03_hyp_needed_addNode_tid", "C03_hyp_needed_deleteNode_book",
                             "C03_hyp_needed_deleteNode_tid"]
+REQUIRED_THEOREMS["C04"] += ["C04_step_addEdge", "C04_frame_addEdge", "C04_step_swap", "C04_frame_swap",
+                             "C04_valid_uDeleteEdge", "C04_valid_uAddEdge", "C04_valid_uSwap"]
+REQUIRED_THEOREMS["C05"] += ["C05_frame_swap"]
+REQUIRED_THEOREMS["C06"] += ["C06_book_uAddEdge", "C06_book_uSwap"]
